@@ -59,6 +59,63 @@ def check_m1(ctx) -> None:
                 in_task.append(mi.functions[d])
         draws: List[Tuple[object, ast.Call]] = []
         gen_draws = 0
+        # process-wide generator objects: a module global filled by an accessor (`global _rng; if _rng is None: _rng = default_rng()`)
+        accessors: Dict[str, Tuple[str, bool]] = {}
+        for fn_ in mi.functions.values():
+            gl = {n_ for st_ in ast.walk(fn_.node) if isinstance(st_, ast.Global) for n_ in st_.names}
+            made = [st_ for st_ in ast.walk(fn_.node) if isinstance(st_, ast.Assign) and isinstance(st_.targets[0], ast.Name) and
+                    st_.targets[0].id in gl and isinstance(st_.value, ast.Call) and (dotted_name(st_.value.func) or '').endswith('default_rng')]
+            if made and any(isinstance(r_, ast.Return) and isinstance(r_.value, ast.Name) and r_.value.id == made[0].targets[0].id
+                            for r_ in ast.walk(fn_.node)):
+                fresh_ = not made[0].value.args or (isinstance(made[0].value.args[0], ast.Constant) and made[0].value.args[0].value is None)
+                accessors[fn_.name] = (made[0].targets[0].id, fresh_)
+        at_import = {st_.targets[0].id for st_ in mi.tree.body if isinstance(st_, ast.Assign) and isinstance(st_.targets[0], ast.Name) and
+                     isinstance(st_.value, ast.Call) and (dotted_name(st_.value.func) or '').endswith('default_rng')}
+        # what the parent process runs before the pool exists: main and the module functions it calls (transitively), the task excluded
+        parent_side, todo_ = set(), ['main']
+        while todo_:
+            nm_ = todo_.pop()
+            if nm_ in parent_side or nm_ not in mi.functions or mi.functions[nm_] in in_task and nm_ != 'main':
+                continue
+            parent_side.add(nm_)
+            for c_ in calls_in(mi.functions[nm_].node):
+                d_ = dotted_name(c_.func)
+                if d_ in mi.functions:
+                    todo_.append(d_)
+        # task helpers that the parent also calls create the generator in the parent all the same
+        def _reaches_accessor(fname: str, seen=None) -> bool:
+            seen = seen or set()
+            if fname in seen or fname not in mi.functions:
+                return False
+            seen.add(fname)
+            for c_ in calls_in(mi.functions[fname].node):
+                d_ = dotted_name(c_.func)
+                if d_ in accessors or (d_ in mi.functions and _reaches_accessor(d_, seen)):
+                    return True
+            return False
+        parent_creates = [nm_ for nm_ in sorted(parent_side) for c_ in calls_in(mi.functions[nm_].node)
+                          if (dotted_name(c_.func) in accessors or (dotted_name(c_.func) in mi.functions and mi.functions[dotted_name(c_.func)] in in_task
+                                                                    and dotted_name(c_.func) != w.name and _reaches_accessor(dotted_name(c_.func))))]
+        for f in in_task:
+            proc_gens = {st_.targets[0].id: dotted_name(st_.value.func) for st_ in ast.walk(f.node) if isinstance(st_, ast.Assign) and
+                         isinstance(st_.targets[0], ast.Name) and isinstance(st_.value, ast.Call) and dotted_name(st_.value.func) in accessors}
+            for c in calls_in(f.node):
+                d = dotted_name(c.func) or ''
+                parts = d.split('.')
+                if len(parts) == 2 and parts[0] in proc_gens and parts[1] not in NON_DRAWS:
+                    gen_draws += 1
+                    gname, fresh_ = accessors[proc_gens[parts[0]]]
+                    bad_why = None
+                    if gname in at_import:
+                        bad_why = f'the process-wide generator `{gname}` is created at import, i.e. in the parent'
+                    elif not fresh_:
+                        bad_why = f'the process-wide generator `{gname}` is created from a fixed seed'
+                    elif parent_creates:
+                        bad_why = (f'the process-wide generator `{gname}` is created lazily, but {parent_creates[0]}() - which the parent runs before the '
+                                   f'pool is started - already draws from it, so it exists before the workers are forked')
+                    ctx.check(bad_why is None, 'M1', f'{f.qualname}/draw:{parts[1]}-from-process-generator', f'{f.module.rel}:{c.lineno}',
+                              f'{bad_why}: every forked worker inherits the same generator state and the iterations replay identical samples',
+                              fact='generator created in the worker process, from OS entropy')
         for f in in_task:
             local_gens: Set[str] = set()
             for st in ast.walk(f.node):
@@ -255,10 +312,52 @@ def result_row_facts(ctx, w):
     return lock_with
 
 
+def check_m2_parent_collects(ctx, w) -> bool:
+    """The other way to get one row per successful iteration: the task *returns* its row and the parent writes it.  Decided here:
+    the parent must take each iteration's result on its own.  `for row in executor.map(task, ...)` does not: the iterator re-raises the
+    first task exception at its position and is then exhausted, so every later iteration's row is lost (and, caught outside the loop,
+    silently).  Returns False when this design is not present (the caller then reports what it cannot find)."""
+    repo = ctx.repo
+    rets = [r for r in w.node.body if isinstance(r, ast.Return) and r.value is not None]
+    if not rets:
+        return False
+    consumers = []
+    for f in repo.module(MC).functions.values():
+        for lp in ast.walk(f.node):
+            if isinstance(lp, (ast.For, ast.comprehension)):
+                it = lp.iter
+                for c in ast.walk(it):
+                    if isinstance(c, ast.Call) and isinstance(c.func, ast.Attribute) and c.func.attr == 'map' and c.args and \
+                            norm(c.args[0]) == w.name:
+                        consumers.append((f, lp, c))
+    if not consumers:
+        return False
+    can_raise = any(isinstance(x, ast.Raise) for x in walk_no_nested(w.node)) or \
+        not (len(w.node.body) >= 1 and any(isinstance(b, ast.Try) and any(h.type is None or norm(h.type) in ('Exception', 'BaseException') for h in b.handlers)
+                                           for b in w.node.body))
+    for f, lp, c in consumers:
+        ctx.check(not can_raise, 'M2', f'{f.name}/rows-collected-per-iteration', f'{f.module.rel}:{c.lineno}',
+                  f'{f.name} takes the rows from `for ... in {norm(c)[:60]}`: the map iterator re-raises the first failing iteration at its position and '
+                  f'ends, so the rows of all later iterations - simulated successfully or never started - are not written: fewer than one row per '
+                  f'successful iteration (take each future on its own: submit() + result() in a per-iteration try)',
+                  fact='each iteration result taken on its own')
+    for r in rets:
+        v = r.value
+        ok_nl = (isinstance(v, ast.BinOp) and isinstance(v.op, ast.Add) and norm(v.right) == "'\\n'") or norm(v).endswith("+ '\\n'")
+        if not ok_nl and isinstance(v, ast.Name):
+            ups = [st for st in w.node.body if isinstance(st, ast.AugAssign) and norm(st.target) == v.id and st.lineno < r.lineno]
+            ok_nl = bool(ups) and norm(ups[-1].value) == "'\\n'"
+        ctx.check(ok_nl, 'M2', 'work_package/row-newline-terminated', f'{w.module.rel}:{r.lineno}',
+                  'the row returned to the parent is not newline-terminated')
+    return True
+
+
 def check_m2(ctx) -> None:
     repo = ctx.repo
     w = repo.function(MC, 'work_package')
     lock_with = result_row_facts(ctx, w)
+    if lock_with is None and check_m2_parent_collects(ctx, w):
+        return
     ctx.require(lock_with is not None, 'work_package: locked append (`with FL as r`) not found')
     # the file handle is the third element of what the lock's context manager yields (`with FL as r: acquired, code, fd = r`)
     asv = next((it.optional_vars for it in lock_with.items if it.optional_vars is not None), None)
